@@ -359,6 +359,10 @@ class Prop:
                 if may_not_raise or not isinstance(err, UniqueConstraintError):
                     fails.append(f"raised: {type(err).__name__} ordered={ordered} reduce={reduce}")
                 continue
+            try:   # the result is a well-formed tree of its own (registry, index, parent links)
+                res._self_check()
+            except Exception as e:  # noqa: BLE001
+                fails.append(f"selfcheck: result tree fails _self_check ({type(e).__name__}) ordered={ordered} reduce={reduce}")
             hints = [h - base for h in compute_hints(res, t0, t1)]
             coq_cfgs.append(f"({H.coq_bool(ordered)}, {H.coq_bool(reduce)}, {H.coq_list(H.z(h) for h in hints)})")
             rm = res._root._meta or {}
